@@ -29,12 +29,10 @@ func (c *ShipConnection) handleShipMessage(timeout bool, message []byte) {
 				<-time.After(500 * time.Millisecond)
 
 				//
-				c.dataWriter.CloseDataConnection(4001, "close")
-				c.infoProvider.HandleConnectionClosed(c, c.getState() == model.SmeStateComplete)
+				c.closeDataConnectionAndReport(4001, "close", c.getState() == model.SmeStateComplete)
 			case model.ConnectionClosePhaseTypeConfirm:
 				// we got a confirmation so close this connection
-				c.dataWriter.CloseDataConnection(4001, "close")
-				c.infoProvider.HandleConnectionClosed(c, c.getState() == model.SmeStateComplete)
+				c.closeDataConnectionAndReport(4001, "close", c.getState() == model.SmeStateComplete)
 			}
 
 			return
